@@ -51,7 +51,7 @@ def convex_subset(rng: random.Random, nodes: list[dict]) -> list[str]:
     return [n for n in names if n in s]
 
 
-def nest(program: list[dict], gi: int, subset: list[str], rng: random.Random, wname: str, rename: bool, bind_inner: bool) -> list[dict]:
+def nest(program: list[dict], gi: int, subset: list[str], rng: random.Random, wname: str, rename: bool, bind_inner: bool, dup_bind: bool = False) -> list[dict]:
     """Wrap `subset` of graph gi into a nested graph used as one node. Returns the new program."""
     prog = copy.deepcopy(program)
     g = prog[gi]
@@ -97,6 +97,11 @@ def nest(program: list[dict], gi: int, subset: list[str], rng: random.Random, wn
             if k in iface_in and k not in used_outside:
                 v = bound_outer.pop(k)
                 inner_bound.append([("in_" + k) if rename else k, v])
+    if dup_bind:
+        # the same name bound at both levels: the binding of the graph being run wins, exactly as flat.bind(k=decoy).bind(k=v) uses v
+        for k, v in bound_outer.items():
+            if k in iface_in:
+                inner_bound.append([("in_" + k) if rename else k, v + 100 if isinstance(v, int) and not isinstance(v, bool) else 100])
     inner = {"name": f"inner_{wname}", "nodes": inner_nodes, "bound": inner_bound}
     wrapper = {"name": wname, "kind": "graph", "inner": gi, "inRen": in_ren, "outRen": out_ren}
     new_outer = {"name": g["name"] + "_n", "nodes": outer_nodes + [wrapper], "bound": [[k, v] for k, v in bound_outer.items()]}
@@ -138,10 +143,14 @@ class C05(Prop):
                 if len(nodes) < 1:
                     break
                 subset = convex_subset(rng, nodes)
+                for _ in range(8):      # prefer cuts crossed by edges in both directions
+                    if len(subset) < len(nodes) and _crossed(nodes, set(subset)):
+                        break
+                    subset = convex_subset(rng, nodes)
                 if len(subset) == len(nodes) and d > 0:
                     break
                 cuts.append(subset)
-                nested = nest(nested, gi, subset, rng, f"w{d}", rename=rng.random() < 0.5, bind_inner=rng.random() < 0.5)
+                nested = nest(nested, gi, subset, rng, f"w{d}", rename=rng.random() < 0.5, bind_inner=(mode := rng.choice(["none", "move", "dup", "dup"])) == "move", dup_bind=mode == "dup")
                 # next level: nest inside the inner graph just created (index gi stays the inner graph)
             for runner in ("sync", "async"):
                 yield {"flat": flat, "nested": nested, "values": c["values"], "runner": runner, "cuts": cuts}
@@ -215,13 +224,7 @@ class C05(Prop):
     def nontrivial(self, case: dict, obs: Any) -> bool:
         if not case["cuts"]:
             return False
-        nodes = case["flat"][0]["nodes"]
-        s = set(case["cuts"][0])
-        ins = set().union(*(node_io(n)[0] for n in nodes if n["name"] in s)) if s else set()
-        outs = set().union(*(node_io(n)[1] for n in nodes if n["name"] in s)) if s else set()
-        rest_in = set().union(*[node_io(n)[0] for n in nodes if n["name"] not in s] or [set()])
-        rest_out = set().union(*[node_io(n)[1] for n in nodes if n["name"] not in s] or [set()])
-        return bool(ins & rest_out) and bool(outs & rest_in)
+        return _crossed(case["flat"][0]["nodes"], set(case["cuts"][0]))
 
     def features(self, case: dict, obs: Any) -> dict:
         return {"depth": len(case["cuts"]), "cut_size": len(case["cuts"][0]) if case["cuts"] else 0, "nodes": len(case["flat"][0]["nodes"]),
@@ -238,6 +241,14 @@ class C05(Prop):
 
     def neighbours(self, case: dict, rng: random.Random) -> Iterable[dict]:
         yield from self.cases(rng, "quick")
+
+
+def _crossed(nodes: list[dict], s: set[str]) -> bool:
+    ins = set().union(*[node_io(n)[0] for n in nodes if n["name"] in s] or [set()])
+    outs = set().union(*[node_io(n)[1] for n in nodes if n["name"] in s] or [set()])
+    rest_in = set().union(*[node_io(n)[0] for n in nodes if n["name"] not in s] or [set()])
+    rest_out = set().union(*[node_io(n)[1] for n in nodes if n["name"] not in s] or [set()])
+    return bool(ins & rest_out) and bool(outs & rest_in)
 
 
 def _kv(kv: list) -> tuple:
